@@ -10,9 +10,9 @@
    C13_proc at the end; model coq/Model/Proc.v, replayed on every real pipeline trace). Statements only. *)
 From Verif Require Import Base.Sx Base.GoSem Base.Json Model.Decoders.Common
   Model.Actions.Tree Model.Actions.Subst Model.Actions.ConvertUtf8 Model.Actions.HashNorm Model.Actions.Plugins
-  Model.Actions.Entry Model.Actions.ExtraTree Model.Actions.ExtraPlugins Model.Actions.Templates.
+  Model.Actions.Entry Model.Actions.ExtraTree Model.Actions.ExtraPlugins Model.Actions.Templates Model.Actions.Procs.
 From Verif Require Proofs.Actions.Theorems Proofs.Actions.Plugins Proofs.Actions.ExtraTree Proofs.Actions.ExtraPlugins
-  Proofs.Actions.Templates.
+  Proofs.Actions.Templates Proofs.Actions.Procs.
 From Coq Require Import Permutation.
 Import Proofs.Actions.Plugins.   (* sop_valid / filter_valid: what the filter parsers accept *)
 Import Proofs.Actions.ExtraTree.   (* last_get: the last value a field list gives a key *)
@@ -138,6 +138,44 @@ Theorem c13_generic_predicate : forall which plugins events obs,
   (c13_actions_entry which (SL [SL plugins; SL events]) obs = Agree <-> obs = SL [SZ 1]).
 Proof. exact Theorems.c13_generic_predicate. Qed.
 Print Assumptions c13_generic_predicate.
+
+(* ---- sub-model 53: the per-processor instances of one action, run concurrently (Model/Actions/Procs.v; stream
+   'processors' of harness/c13/procs.go): K instances started as the pipeline starts them for K processors, each on
+   its own goroutine with its own events; the observation carries, per instance, what it did concurrently and what a
+   fresh instance does on the same events alone ------------------------------------------------------------------ *)
+Theorem c13_procs_predicate : forall mode k obs, Procs.procs_ok mode k obs = true ->
+  exists conc solo, obs = SL [SL conc; SL solo] /\ length conc = k /\ length solo = k /\
+    (forall s, In s conc \/ In s solo -> Proofs.Actions.Procs.clean_stream s) /\
+    (mode = 0 -> conc = solo).
+Proof. exact Proofs.Actions.Procs.procs_ok_spec. Qed.
+Print Assumptions c13_procs_predicate.
+
+Theorem c13_procs_violation_record_rejected : forall mode k conc solo s recs code rest,
+  In s conc \/ In s solo -> s = SL recs -> In (SL (SZ code :: rest)) recs -> code <> 0 ->
+  Procs.procs_ok mode k (SL [SL conc; SL solo]) = false.
+Proof. exact Proofs.Actions.Procs.procs_violation_record_rejected. Qed.
+Print Assumptions c13_procs_violation_record_rejected.
+
+Theorem c13_procs_agree_iff : forall plugins mode streams obs,
+  (2 <= length streams)%nat -> mode = 0 \/ mode = 1 ->
+  (Procs.c13_procs_entry 53 (SL [SL plugins; SZ mode; SL streams]) obs = Agree <->
+   Procs.procs_ok mode (length streams) obs = true).
+Proof. exact Proofs.Actions.Procs.procs_agree_iff. Qed.
+Print Assumptions c13_procs_agree_iff.
+
+Theorem c13_procs_strict_differs_violates : forall plugins streams conc solo,
+  (2 <= length streams)%nat -> conc <> solo ->
+  exists m, Procs.c13_procs_entry 53 (SL [SL plugins; SZ 0; SL streams]) (SL [SL conc; SL solo]) = Violates m.
+Proof. exact Proofs.Actions.Procs.procs_strict_differs_violates. Qed.
+Print Assumptions c13_procs_strict_differs_violates.
+
+Example c13_procs_nonvacuous :
+  Procs.procs_ok 0 2 (SL [SL [SL [SL [SZ 0; SZ 3; SB [1%N]]]; SL [SL [SZ 0; SZ 1; SB [2%N]]]];
+                          SL [SL [SL [SZ 0; SZ 3; SB [1%N]]]; SL [SL [SZ 0; SZ 1; SB [2%N]]]]]) = true /\
+  Procs.procs_ok 0 2 (SL [SL [SL [SL [SZ 0; SZ 3; SB [9%N]]]; SL [SL [SZ 0; SZ 1; SB [2%N]]]];
+                          SL [SL [SL [SZ 0; SZ 3; SB [1%N]]]; SL [SL [SZ 0; SZ 1; SB [2%N]]]]]) = false /\
+  Procs.procs_ok 1 2 (SL [SL [SL [SL [SZ 2; SB [112%N]]]; SL []]; SL [SL [SL [SZ 0; SZ 0; SB []]]; SL []]]) = false.
+Proof. vm_compute. repeat split. Qed.
 
 
 (* ==== tree-level models of the plugins that are pure insane-json mutations and library calls ==========
